@@ -1,9 +1,82 @@
-(* C04 property theorems. Statements closed by `exact lemma`; Print Assumptions after each. *)
+(* C04 property theorems (PARTIAL claim: the lock-granular protocol; see props/C04/NOTES.md).
+   All theorems are about the machine of C04/Model.v in its `correct` variant (= the repaired protocol; today's code is
+   variant `current`, refuted in Refuted.v), for ANY list of fresh actors (any number of writers with any batches,
+   readers with any number of queries, flushers, replacers with any operation lists, closers) and EVERY state
+   reachable by any interleaving of enabled steps.  Statements closed by `exact lemma`. *)
 From Coq Require Import List Bool Arith.
-From OG Require Import C04.Model C04.Proofs.
+From OG Require Import C04.Model C04.Proofs C04.Steps C04.Inv C04.Views C04.Safety C04.Progress.
 Import ListNotations.
 
 (* every executable schedule is a reachability witness (used by Mutants.v / Refuted.v and by the correspondence) *)
 Theorem C04_run_reach : forall V sched st st', run V st sched = Some st' -> reach V st st'.
 Proof. exact run_reach. Qed.
 Print Assumptions C04_run_reach.
+
+(* view_complete: a finished query that took its first step before the closer dropped the active table (ok = true)
+   returns every batch that was acknowledged when it took that first step.  (The flushed-flag protocol never drops the
+   snapshot table from a view before the files flushed from it are in that view.) *)
+Theorem C04_view_complete : forall l st i r ok start res,
+  forallb fresh l = true -> reach correct (init_state l) st ->
+  nth_error (actors st) i = Some (AR r) -> In (ok, start, res) (r_hist r) -> ok = true -> incl start res.
+Proof. exact view_complete_all. Qed.
+Print Assumptions C04_view_complete.
+
+Theorem C04_view_complete_in_progress : forall l st i r ms fs res,
+  forallb fresh l = true -> reach correct (init_state l) st ->
+  nth_error (actors st) i = Some (AR r) -> r_ok r = true -> r_ph r = R4 ms fs res -> incl (r_start r) res.
+Proof. exact view_complete_in_progress. Qed.
+Print Assumptions C04_view_complete_in_progress.
+
+(* view_values_acked: every batch a query returns was appended by some writer (acknowledged or still in flight) *)
+Theorem C04_view_values_acked : forall l st i r ok start res,
+  forallb fresh l = true -> reach correct (init_state l) st ->
+  nth_error (actors st) i = Some (AR r) -> In (ok, start, res) (r_hist r) -> incl res (appended (sh st)).
+Proof. exact view_values_appended_all. Qed.
+Print Assumptions C04_view_values_acked.
+
+(* no_file_removed_while_referenced (and no memtable recycled while referenced) *)
+Theorem C04_no_file_removed_while_referenced : forall l st i r,
+  forallb fresh l = true -> reach correct (init_state l) st ->
+  nth_error (actors st) i = Some (AR r) -> r_ok r = true ->
+  match r_ph r with
+  | R2 _ fs _ => forall f, In f fs -> exists x, get_file (sh st) f = Some x /\ In i (f_hold x) /\ f_removed x = false
+  | R3 ms fs =>
+      (forall f, In f fs -> exists x, get_file (sh st) f = Some x /\ In i (f_hold x) /\ f_removed x = false) /\
+      (forall m, In m ms -> exists t, get_mt (sh st) m = Some t /\ In i (m_hold t) /\ m_dead t = false)
+  | _ => True
+  end.
+Proof. exact no_removal_while_referenced_all. Qed.
+Print Assumptions C04_no_file_removed_while_referenced.
+
+(* monotone_reads: for two finished queries of one client, the later one (started before the close) returns every batch
+   that was acknowledged when the earlier one started, and every batch of the earlier result that had been acknowledged
+   when the later one started *)
+Theorem C04_monotone_reads : forall l st i r pre ok2 s2 res2 post ok1 s1 res1,
+  forallb fresh l = true -> reach correct (init_state l) st ->
+  nth_error (actors st) i = Some (AR r) ->
+  r_hist r = pre ++ (ok2, s2, res2) :: post -> In (ok1, s1, res1) post -> ok2 = true ->
+  incl s1 s2 /\ incl s1 res2 /\ (forall b, In b res1 -> In b s2 -> In b res2).
+Proof. exact monotone_reads_all. Qed.
+Print Assumptions C04_monotone_reads.
+
+(* close_drains / no deadlock: as long as some actor (writer, reader, flusher, replacer, closer) is not done, some
+   step is enabled - in particular a Close in flight always completes, whatever else is in flight *)
+Theorem C04_close_drains : forall l st, forallb fresh l = true -> reach correct (init_state l) st ->
+  (exists i a, nth_error (actors st) i = Some a /\ done a = false) ->
+  exists i st', exec correct st i = Some st'.
+Proof. exact no_deadlock_all. Qed.
+Print Assumptions C04_close_drains.
+
+(* non-vacuity: a concrete system (two writers, a reader with two queries, a flusher, a merger, a closer) and an
+   interleaving in which the first query overlaps a flush (it takes the snapshot pointer before the files are published,
+   the file references after) and two writes, the second follows an out-of-order merge; both views are complete and
+   the run drains *)
+Example C04_example :
+  let sys := [fresh_writer [5;3]; fresh_writer [4]; fresh_reader 2; fresh_flusher 2; AP [Merge]; AC C0] in
+  forallb fresh sys = true /\
+  match run correct (init_state sys) [0;0; 3; 2; 3; 2; 2; 3; 0;0; 1;1; 2;2; 3;3;3; 4;4;4; 2;2;2;2;2; 5;5;5;5;5] with
+  | Some st => map reader_hist (actors st) = [[]; []; [(true, [4;3;5], [5;4;3]); (true, [5], [4;3;5])]; []; []; []]
+               /\ forallb done (actors st) = true
+  | None => False
+  end.
+Proof. vm_compute. repeat split. Qed.
